@@ -66,6 +66,68 @@ def run(prop, tier, seed):
         run_.count(allc[i], True, "malformed " + impl[i].split()[0][:5])
     for i, d in bad[:20]:
         run_.violation("concrete", d, dict(case=allc[i], impl=impl[i], model=model[i]))
+    # ---- whole program: combined run = sequence of separate runs; stdin = -i; auto-detected format = -u / -c / -n
+    from l2common import run_many, l2_family, describe, tree_no_meta, diff_trees, fmt_tree
+    import scen, l2, os
+    exe = os.path.join(build_impl(), "sb_patch")
+    nl2 = 120 if tier == "quick" else 2000
+    combined, parts = [], []
+    for _ in range(nl2):
+        fmts = rng.choice([None, ["unified"], ["context"], ["normal"]])
+        sc = scen.gen_scenario(rng, nsec=rng.choice([2, 3, 3]), kinds=["change", "change", "add", "delete"], fmts=fmts,
+                               drift=rng.choice([0, 0.5]), opts=rng.choice([{}, {"f": 1}, {"b": 1}]))
+        if "p.diff" not in sc["tree"]:
+            continue
+        # filler between the sections
+        text = streams.filler(rng)
+        for x in sc["secs"]:
+            text += x["text"] + streams.filler_after(rng, x)
+        sc["tree"]["p.diff"] = ("R", 0o644, text)
+        sc["single_fmt"] = fmts[0] if fmts and all(x["fmt"] == fmts[0] for x in sc["secs"]) else None
+        combined.append(sc)
+    res, b2, m2 = l2_family(run_, exe, combined, lambda s, r: None, cls=lambda s, r: "combined exit %d" % r["exit"], label="C11")
+    l2bad = list(b2)
+    for sc, r in zip(combined, res):
+        if r["exit"] == 2:
+            continue
+        tree = {p: v for p, v in sc["tree"].items()}
+        worst = 0
+        ok = True
+        for x in sc["secs"]:
+            one = dict(sc); one["tree"] = dict(tree); one["tree"]["p.diff"] = ("R", 0o644, x["text"])
+            r1 = l2.run_impl(exe, one)
+            if r1["exit"] == 2:
+                ok = False
+                break
+            worst = max(worst, r1["exit"])
+            tree = {p: (k, m, d) for p, (k, m, d, *_) in r1["tree"].items()}
+        if not ok:
+            continue
+        final = tree_no_meta(r["tree"]); final.pop("p.diff", None); tree.pop("p.diff", None)
+        rep = dict(scenario=describe(sc), combined=dict(exit=r["exit"], stdout=r["stdout"].decode("latin-1")[-800:], tree=fmt_tree(r["tree"])), separate=dict(exit=worst))
+        if r["exit"] != worst:
+            l2bad.append((0, "the concatenated stream exits %d, the sections applied one after another exit %d at worst" % (r["exit"], worst), rep))
+        elif final != tree:
+            l2bad.append((0, "the concatenated stream leaves a different tree than the sections applied one after another: " + "; ".join(diff_trees(tree, final)[:3]), rep))
+        # stdin = -i
+        sin = dict(sc); sin["tree"] = {p: v for p, v in sc["tree"].items() if p != "p.diff"}; sin["stdin"] = sc["tree"]["p.diff"][2]
+        sin["opts"] = {k: v for k, v in sc["opts"].items() if k != "i"}
+        r2 = l2.run_impl(exe, sin)
+        t2 = tree_no_meta(r2["tree"])
+        if r2["exit"] != r["exit"] or t2 != final:
+            l2bad.append((0, "reading the patch from standard input (exit %d) differs from -i (exit %d)" % (r2["exit"], r["exit"]), rep))
+        # auto-detection = the matching option
+        if sc["single_fmt"] in ("unified", "context", "normal"):
+            fo = dict(sc); fo["opts"] = dict(sc["opts"]); fo["opts"][{"unified": "u", "context": "c", "normal": "n"}[sc["single_fmt"]]] = 1
+            r3 = l2.run_impl(exe, fo)
+            t3 = tree_no_meta(r3["tree"]); t3.pop("p.diff", None)
+            if r3["exit"] != r["exit"] or t3 != final:
+                l2bad.append((0, "forcing the format with -%s (exit %d) differs from auto-detection (exit %d)" % (sc["single_fmt"][0], r3["exit"], r["exit"]),
+                              dict(rep, forced=dict(exit=r3["exit"], stdout=r3["stdout"].decode("latin-1")[-600:], stderr=r3["stderr"].decode("latin-1")[-300:]))))
+    for i, d, rep in l2bad[:10]:
+        run_.violation("concrete", d, rep)
+    if m2 and not l2bad and not bad:
+        run_.violation("no-input", "correspondence L2 broken on %d scenarios" % len(m2), dict(m2[0][2], broken="correspondence L2 (Driver.v)"))
     if mism and not bad:
         i = mism[0]
         run_.violation("no-input", "correspondence L1 PARSE broken on %d of %d cases" % (len(mism), len(allc)),
